@@ -146,6 +146,10 @@ def check(res, pid, where, o, params, used, wheres, src):
             for w in it["where"]:
                 if not set(pred_params(w, params)) <= set(got):
                     bad("%s constrained by `%s` which mentions a foreign parameter" % (it["name"], w), "where_foreign")
+            # the marker variant that carries the parameters must never be reachable from the wire
+            for v in it.get("variants", []):
+                if v["name"] == "_Phantom" and not any(norm(a) == "#[serde(skip)]" for a in v["attrs"]):
+                    bad("%s has a parameter-marker variant that is not skipped by serde: the type accepts a message name no handler has" % it["name"], "phantom_not_skipped")
         if k == "impl" and it.get("trait") is None:
             st = norm(it["self_ty"]).split("<")[0]
             if st in MSG_OF and not (where == "contract" and st.startswith("If")):
@@ -279,6 +283,19 @@ def run_e2(res, tier):
                 route = "wrapper" if m.kind in ("exec", "query", "sudo") else "contract"
                 cases.append({"prog": pid, "op": "dispatch", "kind": m.kind, "part": route, "input": d, "ctx": fam_basic.CONTEXTS[1]})
                 exp.append((pid, cm, tup, d))
+    probes = []
+    for pid, c, params, used, conc in progs:
+        if pid in cp.failed:
+            continue
+        for kind in ("exec", "query", "sudo"):
+            for d in ('{"_phantom":null}', '{"__phantom":null}', '{"_phantom":[]}', '"_phantom"', '{"_Phantom":null}'):
+                for part in ("contract", "wrapper"):
+                    probes.append({"prog": pid, "op": "decode", "kind": kind, "part": part, "input": d})
+    for pc, o in zip(probes, cp.run_cases(probes)):
+        res.add(states=1, transitions=1, traces=1, evaluations=1)
+        if o.get("ok"):
+            res.violation({"kind": "behaviour", "cls": "phantom_accepted", "pid": pc["prog"], "doc": pc["input"], "obs": o,
+                           "what": "%s: %s message type accepts %s, which names no handler" % (pc["prog"], pc["kind"], pc["input"])})
     obs2 = cp.run_cases(cases)
     for case, e, o in zip(cases, exp, obs2):
         pid, cm, tup, d = e
